@@ -164,6 +164,9 @@ def grammar():
     # functions outside the whitelist applied to environment objects the way an attacker would: they must not resolve
     priv = st.sampled_from(["'_x'", "'__dict__'", "'_vf_secret'", "'__hidden'", "'_Sentinel__m'", "'__priv__'"])
     badcall = st.one_of(
+        st.builds(lambda x, p: f"{x}[{p}]", sent, priv),                 # item access spelled with a private member's name
+        st.builds(lambda x, p: f"{x}[{p}]", sent, priv),
+        st.builds(lambda x, p: f"{x}.get({p})", sent, priv),
         st.builds(lambda x, p: f"getattr({x}, {p})", sent, priv),
         st.builds(lambda x, p: f"vars({x})[{p}]", sent, priv),
         st.builds(lambda x: f"vars({x})", sent),
